@@ -16,7 +16,7 @@ def run(chk):
     chk.explanation = (
         "Decides the acquire/release pairing behind C13, not the values of variables after arbitrary programs. "
         "R13d: two parameters bound in sequence are restored in reverse order (LIFO), so that `|x, x|` leaves the outer `x` intact. "
-        "R13a: in every closure Runner method, each closure::insert (swap the parameter in, remember the old value) is followed on EVERY "
+        "R13e: the run-time cleanup both restores a shadowed value and un-defines a parameter that shadowed nothing. R13a: in every closure Runner method, each closure::insert (swap the parameter in, remember the old value) is followed on EVERY "
         "non-unwind path to a Return — including `?` error exits — by closure::cleanup of the same identifier with the value that insert returned. "
         "R13b: who-may-call — RuntimeState::swap_variable is called only from closure::insert; every closure-taking stdlib function reaches the "
         "closure only through Runner. R13c: compile-time twin — Builder::compile_closure restores-or-removes every closure variable that "
@@ -120,6 +120,31 @@ def run(chk):
                               "%s is called outside the closure Runner pairing discipline" % callee, detail=desc)
         else:
             chk.instance(rid, desc, ok=True)
+
+    rid = "R13e"
+    chk.rule(rid, "run-time cleanup puts a shadowed value back AND un-defines a parameter that shadowed nothing (reaches a map insertion and a map removal "
+                  "on RuntimeState.variables)", floor=2)
+    if not facts.has(CLEANUP):
+        chk.fail_closed(rid, "anchor not found: %s" % CLEANUP)
+    else:
+        import re as _re
+        seen, ext, par = facts.reach([CLEANUP], cha=False)
+        inside = [n for n in seen if n.startswith("compiler::state::RuntimeState::") or n == CLEANUP]
+        ext_calls = set()
+        for n in inside:
+            ext_calls |= set(facts.callees(n))
+        ins = sorted(c for c in ext_calls if _re.search(r"std::collections::(HashMap|BTreeMap)::<.*>::insert$|Entry.*::(insert|or_insert)", c))
+        rem = sorted(c for c in ext_calls if _re.search(r"std::collections::(HashMap|BTreeMap)::<.*>::(remove|remove_entry)(::<.*>)?$", c))
+        cb = facts.body(CLEANUP)
+        for what, found, meaning in (("insert", ins, "a parameter that shadowed an outer variable keeps the closure's value after the call"),
+                                     ("remove", rem, "a parameter that shadowed nothing stays defined after the call: a later read of that name (e.g. after an "
+                                                     "untaken conditional definition) sees the last element instead of null")):
+            d = {"fn": CLEANUP, "needs": "map " + what, "reached_through": sorted(inside), "found": found}
+            chk.instance(rid, d, ok=bool(found))
+            if not found:
+                chk.violation(rid, cb.file, CLEANUP, "no map %s reachable" % what,
+                              "closure::cleanup no longer reaches a %s on RuntimeState.variables: %s" % (what, meaning), detail=d,
+                              loc="%s:%s" % (cb.file, cb.line))
 
     rid = "R13c"
     chk.rule(rid, "compile-time twin: compile_closure restores/removes each closure variable (Some -> insert_variable, None -> remove_variable) "
